@@ -5,7 +5,10 @@ From Helm Require Import Engine.Types Engine.Eff Engine.Ops Engine.Skeleton Engi
                          Engine.SkeletonModel Engine.SkeletonProofs.
 Import ListNotations.
 
-Lemma check_upgrade : check_op OUpgrade expected rexpected = true.
+Lemma check_ok_upgrade : check_op_ok OUpgrade expected rexpected = true.
+Proof. vm_cast_no_check (eq_refl true). Qed.
+
+Lemma check_fail_upgrade : check_op_fail OUpgrade expected rexpected = true.
 Proof. vm_cast_no_check (eq_refl true). Qed.
 
 Lemma check_all_flags_upgrade : check_op_all_flags OUpgrade expected rexpected = true.
